@@ -1525,4 +1525,19 @@ theorem errors_point_at_data_inert (m : Mode) (env : Env) (s : S) (v : J) (hw : 
   exact errors_point_at_data m env s v hw
 
 
+
+/-- the DefaultsSet callback stays silent where nothing can be injected, and (6a3f133) whenever the value comes back
+as it went in — in particular when the only defaults sit in oneOf/anyOf candidates that do not match -/
+theorem callback_silent_inert (m : Mode) (env : Env) (s : S) (v : J) (hw : WFJ v)
+    (h : env.injects = false ∨ s.hasPropDflt = false) : callbackFires m env s v = false := by
+  unfold callbackFires
+  rw [visitD_inert m env s v hw h]
+  simp [(jeq_iff_eq v v).mpr rfl]
+
+theorem callback_iff_value_changed (m : Mode) (env : Env) (s : S) (v : J) :
+    callbackFires m env s v = true ↔ (validateD m env s v).2 ≠ v := by
+  unfold callbackFires validateD
+  simp only [Bool.not_eq_true', ne_eq]
+  rw [← Bool.not_eq_true, jeq_iff_eq]
+
 end KinModel.Schema
